@@ -56,6 +56,9 @@ structure Pair where
   syncedOnce : Bool := false             -- a `synced` was received since the last `linked`-after-closed
   nfExpected : Nat := 0
   nfSeen : Nat := 0
+  unlinkOps : List Nat := []             -- times of the explicit unlink requests not yet seen as `unlinked` frames
+  implicitT0 : Option Nat := none        -- the remote became linked by a sync request (no link request before it)
+  syncedAt : Nat := 0                    -- when the latest `synced` frame was read
   deriving Repr
 
 structure Mon where
@@ -176,13 +179,18 @@ def Mon.frame (m : Mon) (f : Frame) : Mon × Option String :=
       else if p.nfSeen + 1 > p.nfExpected then (m, some "lane-not-found-not-requested")
       else (m.setPair f.r f.lane { p with nfSeen := p.nfSeen + 1 }, none)
     else if !p.isOpen then (m, some "unlinked-without-open-link")
-    else (m.setPair f.r f.lane { p with isOpen := false, syncs := [] }, none)
+    else
+      -- an explicit unlink answers the oldest outstanding unlink request: sync requests made before it are void
+      match p.unlinkOps with
+      | tu :: rest =>
+        (m.setPair f.r f.lane { p with isOpen := false, unlinkOps := rest, syncs := p.syncs.filter (fun sq => sq.t0 > tu) }, none)
+      | [] => (m.setPair f.r f.lane { p with isOpen := false, syncs := [] }, none)
   | .synced =>
     if !p.isOpen then (m, some "synced-outside-link") else
     match p.syncs with
     | [] => (m, some "synced-not-requested")
     | sq :: rest =>
-      let p' := { p with syncs := rest, syncedOnce := true }
+      let p' := { p with syncs := rest, syncedOnce := true, syncedAt := m.t }
       if f.lane = 0 then
         -- the last value received must be one the lane held since the request
         match p.recvVals.getLast? with
@@ -253,7 +261,21 @@ def Mon.final (m : Mon) : Option String :=
         else if lane = 1 then
           let firstChange := (m.mapHist.head?.map (·.1)).getD (m.t + 1)
           if p.syncedOnce || tl < firstChange then
-            (if sameMap p.replica m.curMap then none else some "map-replica-diverged")
+            if sameMap p.replica m.curMap then none
+            else
+              -- classify: keys that differ, and when each of them last changed
+              let diff := m.keys.filter (fun k => alGet p.replica k != alGet m.curMap k)
+              let lastChange (k : Nat) : Nat :=
+                m.mapHist.foldl (fun acc h => match h.2 with
+                  | .upd k' _ => if ikey k' = k then h.1 else acc
+                  | .rem k' => if ikey k' = k then h.1 else acc
+                  | .clr => h.1) 0
+              match p.implicitT0 with
+              | some t0 =>
+                if diff.all (fun k => t0 ≤ lastChange k && lastChange k ≤ p.syncedAt) then
+                  some "map-update-lost-during-implicit-link-sync"
+                else some "map-replica-diverged"
+              | none => some "map-replica-diverged"
           else none
         else none) none
 
@@ -273,44 +295,49 @@ def Mon.commandsOk (m : Mon) : Option String :=
 def Mon.step (m : Mon) (line : String) (out : String) : Mon × Option String :=
   let m := { m with t := m.t + 1 }
   let ws := words out
+  let line := if line.startsWith "!" then (line.drop 1).toString else line
   match words line with
   | ["cfg", _] => (m, none)
   | ["end"] => (m, some ("run-" ++ (ws.headD "failed")))
   | opw =>
-    -- 1. the agent-side history of this step
+    -- 1. the request itself. In a burst the request may be handled before or after the effects reported with
+    --    it, so its bookkeeping starts from the state *before* this line's history.
+    let m1 := m
+    let m2 : Mon := match opw with
+      | ["attach", r, _] => { m1 with attached := m1.attached ++ [r.toNat?.getD 0] }
+      | ["link", r, lane] =>
+        let r := r.toNat?.getD 0; let l := laneId lane; let p := m1.pair r l
+        if l = 4 then m1.setPair r l { p with nfExpected := p.nfExpected + 1 }
+        else m1.setPair r l { p with linkedAt := some (p.linkedAt.getD m1.t) }
+      | ["sync", r, lane] =>
+        let r := r.toNat?.getD 0; let l := laneId lane; let p := m1.pair r l
+        if l = 4 then m1.setPair r l { p with nfExpected := p.nfExpected + 1 }
+        else
+          let sq : SyncReq := { t0 := m1.t, allowed := m1.curMap.map (fun e => (e.1, [some e.2])), allowedVal := [m1.curVal] }
+          m1.setPair r l { p with linkedAt := some (p.linkedAt.getD m1.t), syncs := p.syncs ++ [sq],
+                                  implicitT0 := if p.linkedAt.isNone then some m1.t else p.implicitT0 }
+      | ["unlink", r, lane] =>
+        let r := r.toNat?.getD 0; let l := laneId lane; let p := m1.pair r l
+        m1.setPair r l { p with linkedAt := none, implicitT0 := none,
+                                unlinkOps := if p.linkedAt.isSome then p.unlinkOps ++ [m1.t] else p.unlinkOps }
+      | ["cmd", r, "cmd", body] =>
+        let r := r.toNat?.getD 0
+        match (bytesOfHex body).map (fun bs => String.ofList (bs.map Char.ofNat)) with
+        | some s => match s.toInt? with
+          | some n => { m1 with cmdSent := alSet m1.cmdSent r ((alGet m1.cmdSent r).getD [] ++ [n]) }
+          | none => m1
+        | none => m1
+      | ["drop", r] => { m1 with dropped := m1.dropped ++ [r.toNat?.getD 0] }
+      | ["stop"] => { m1 with stopped := true }
+      | _ => m1
+    -- 2. the agent-side history reported with this step
     let hs := splitList ((fieldOf ws "h").getD "-")
     let r1 := hs.foldl (fun (acc : Mon × Option String) h =>
-      match acc.2 with | some e => (acc.1, some e) | none => acc.1.history h) (m, none)
+      match acc.2 with | some e => (acc.1, some e) | none => acc.1.history h) (m2, none)
     match r1.2 with
     | some e => (r1.1, some e)
     | none =>
-      -- 2. the request itself (op-level bookkeeping happens before the frames it may have produced are judged)
-      let m1 := r1.1
-      let m2 : Mon := match opw with
-        | ["attach", r, _] => { m1 with attached := m1.attached ++ [r.toNat?.getD 0] }
-        | ["link", r, lane] =>
-          let r := r.toNat?.getD 0; let l := laneId lane; let p := m1.pair r l
-          if l = 4 then m1.setPair r l { p with nfExpected := p.nfExpected + 1 }
-          else m1.setPair r l { p with linkedAt := some (p.linkedAt.getD m1.t) }
-        | ["sync", r, lane] =>
-          let r := r.toNat?.getD 0; let l := laneId lane; let p := m1.pair r l
-          if l = 4 then m1.setPair r l { p with nfExpected := p.nfExpected + 1 }
-          else
-            let sq : SyncReq := { t0 := m1.t, allowed := m1.curMap.map (fun e => (e.1, [some e.2])), allowedVal := [m1.curVal] }
-            m1.setPair r l { p with linkedAt := some (p.linkedAt.getD m1.t), syncs := p.syncs ++ [sq] }
-        | ["unlink", r, lane] =>
-          let r := r.toNat?.getD 0; let l := laneId lane; let p := m1.pair r l
-          m1.setPair r l { p with linkedAt := none, syncs := [] }
-        | ["cmd", r, "cmd", body] =>
-          let r := r.toNat?.getD 0
-          match (bytesOfHex body).map (fun bs => String.ofList (bs.map Char.ofNat)) with
-          | some s => match s.toInt? with
-            | some n => { m1 with cmdSent := alSet m1.cmdSent r ((alGet m1.cmdSent r).getD [] ++ [n]) }
-            | none => m1
-          | none => m1
-        | ["drop", r] => { m1 with dropped := m1.dropped ++ [r.toNat?.getD 0] }
-        | ["stop"] => { m1 with stopped := true }
-        | _ => m1
+      let m2 := r1.1
       -- 3. the frames read
       let fs := splitList ((fieldOf ws "f").getD "-")
       let r3 := fs.foldl (fun (acc : Mon × Option String) f =>
